@@ -41,7 +41,7 @@ ASSUMPTIONS = [
 ]
 BUDGET = {
     "quick": dict(cases=130, shards=4, timeout=600),
-    "thorough": dict(cases=1000, shards=16, timeout=3000, time=540),
+    "thorough": dict(cases=2500, shards=16, timeout=3000, time=450),
 }
 CLASSES = G.SHAPES + ["general_factor", "no_state_dir", "user_entries", "budget_only", "es_only", "rlr_only"]
 FLOORS = {
